@@ -342,6 +342,8 @@ pub mod time {
     impl Clone for Date { #[verifier::external_body] fn clone(&self) -> (r: Self) ensures r@ == self@ { Date{jd: self.jd} } }
     impl Copy for Date {}
     pub uninterp spec fn spec_year(d: int) -> int;
+    /// Display text of a date (`%Y-%m-%d`): a function of the day
+    pub uninterp spec fn spec_date_text(d: int) -> Seq<char>;
     impl Date {
         #[verifier::external_body]
         pub fn saturating_sub(self, d: Duration) -> (r: Date) ensures r@ == clamp(self@ - d.spec_days()) { unimplemented!() }
@@ -350,7 +352,7 @@ pub mod time {
         #[verifier::external_body]
         pub fn year(self) -> (r: i32) ensures r == spec_year(self@) { unimplemented!() }
         #[verifier::external_body]
-        pub fn to_string(&self) -> String { unimplemented!() }
+        pub fn to_string(&self) -> (r: String) ensures r@ == spec_date_text(self@) { unimplemented!() }
     }
     impl vstd::std_specs::cmp::PartialEqSpecImpl for Date {
         open spec fn obeys_eq_spec() -> bool { true }
